@@ -80,7 +80,7 @@ class PROP(Prop):
             if mb.spec_rsp_size(rsp) <= 253:
                 cs.append(Case("SRV rtu d%s - - r=%s" % (mb.rtu_frame(3, b"\x11").hex(), mb.show_rsp(rsp)), {"k": "emit_rsp"}))
             cs.append(Case("SRV rtu d%s - - x=%d" % (mb.rtu_frame(3, b"\x11").hex(), rng.randrange(256)), {"k": "emit_rsp"}))
-        # emitted frames after an earlier call left bytes in the write buffer (write error, zero write, abandonment)
+        # emitted frames after an earlier call left bytes in the write buffer (write error, zero write, abandonment) or was refused by the encoder (oversized request)
         for _ in range(200 if tier == "quick" else 2000):
             slave = rng.randrange(256)
             ops, frames = [], []
@@ -88,10 +88,16 @@ class PROP(Prop):
                 req = mb.rnd_req(rng, rng.choice(["RC", "RHR", "WSR", "WSC", "MWR", "WMR", "RSI"]))
                 if mb.spec_req_size(req) > 60:
                     req = ("RHR", 1, 1)
+                mode = rng.choice(["ok", "ok", "werr", "abandon", "zero", "oversize"]) if i < 3 else "ok"
+                if mode == "oversize":
+                    # a request the encoder refuses (PDU > 253 bytes) transmits nothing and must leave nothing behind
+                    big = rng.choice([("WMR", 7, [1] * rng.randrange(124, 140)), ("WMC", 7, [True] * rng.randrange(1977, 2100)),
+                                      ("CU", 0x41, bytes(rng.randrange(253, 300))), ("RWMR", 1, 1, 2, [5] * rng.randrange(122, 130))])
+                    ops.append(cligen.call_op(big))
+                    continue
                 fr = mb.rtu_frame(slave, mb.spec_req_pdu(req))
                 frames.append(fr.hex())
                 k = rng.randrange(0, len(fr))
-                mode = rng.choice(["ok", "ok", "werr", "abandon", "zero"]) if i < 3 else "ok"
                 if mode == "ok":
                     ops.append(cligen.call_op(req, R="e:Other"))
                 elif mode == "werr":
